@@ -184,6 +184,8 @@ def runtime_kinds():
         {"name": "BoolValue", "syntax": p3, "fields": [field("value", 1, "singular", s("bool"))]},
         {"name": "DoubleValue", "syntax": p3, "fields": [field("value", 1, "singular", s("double"))]},
         {"name": "UInt32Value", "syntax": p3, "fields": [field("value", 1, "singular", s("uint32"))]},
+        {"name": "NzDoubleValue", "syntax": p3, "fields": [field("value", 1, "singular", s("double"))]},
+        {"name": "NzFloatValue", "syntax": p3, "fields": [field("value", 1, "singular", s("float"))]},
         {"name": "KWrap", "syntax": p3, "fields": [
             field("sv", 1, "optional", {"msg": "StringValue"}), field("bv", 2, "optional", {"msg": "BytesValue"}),
             field("iv", 3, "optional", {"msg": "Int64Value"}), field("ov", 4, "optional", {"msg": "BoolValue"}),
@@ -193,7 +195,7 @@ def runtime_kinds():
     return {"name": "pbk", "syntax": p3, "package": "", "enums": [], "messages": msgs, "runtime": True,
             "rust": {"KLeaf": "@pbk::KLeaf", "KStr": "@pbk::KStr", "KPacked": "@pbk::KPacked", "KBtree": "@pbk::KBtree", "KGroup": "@pbk::KGroup",
                      "KWrap": "@pbk::KWrap", "StringValue": None, "BytesValue": None, "Int64Value": None, "BoolValue": None,
-                     "DoubleValue": None, "UInt32Value": None}}
+                     "DoubleValue": None, "UInt32Value": None, "NzDoubleValue": None, "NzFloatValue": None}}
 
 
 def for_tla(sch):
